@@ -43,6 +43,7 @@ META = {
         "stub": ["wire: party.send -> simulator, simulator -> party.receive (reliable ordered stream per sender)", "remote peers (scripted from the reference automaton)", "clock (virtual, discrete-event)", "listener threads (reduced to pre-emption points at buffer accessors)"],
     },
     "expected_probes": [
+        "walk_step",
         "remote_msg_parsed",
         "fragmented_delivery",
         "delivery_during_accessor",
@@ -610,6 +611,74 @@ class ProtoSimulation:
 
 
 # ----------------------------------------------------------------------------
+def forecast_walk(run: Run, sim: "ProtoSimulation", f) -> None:
+    """ForecastWalk (C19): without any I/O, a seeded walk picks at each step one of the reference
+    automaton's continuations (messages of *all* parties), builds the message subtree with the
+    product's own grammar.fuzz, mounts it at one of the product's own mounting paths exactly as
+    _generate_io does, and compares forecast and automaton at every prefix -- reaching histories
+    (repetition maxima, "after the last allowed repetition", nested options) that protocol runs
+    rarely reach."""
+    from fandango.io.navigation.packetforecaster import PacketForecaster
+    from fandango.language.symbols import NonTerminal
+    from fandango.language.tree import DerivationTree
+
+    ch = run.ch
+    forecaster = PacketForecaster(f.grammar)
+    tree = DerivationTree(NonTerminal("<start>"))
+    max_len = int(run.cfg.get("walk_len", 12))
+    hist: list = []
+    for step in range(max_len + 1):
+        viable, st = sim.auto.run(hist)
+        assert viable
+        fr = forecaster.predict(tree)
+        run.steps += 1
+        run.probe("forecast_checked")
+        run.probe("walk_step")
+        got = set()
+        for party, fnt in fr.parties_to_packets.items():
+            for nt, packet in fnt.nt_to_packet.items():
+                got.add((packet.node.sender, packet.node.recipient, nt.name()[1:-1]))
+        want = sim.auto.next_set(st)
+        run.event("walk", step, hist[-1] if hist else "-", sorted(got), sorted(want))
+        complete_got = len(fr.complete_trees) != 0
+        complete_want = sim.auto.complete(st) and len(hist) > 0
+        if got != want:
+            extra, missing = sorted(got - want), sorted(want - got)
+            kind = "extra-option" if extra and not missing else ("missing-option" if missing and not extra else "options-differ")
+            cause = sim._forecast_cause(tree, extra, missing)
+            if cause == "other" and missing and all(any(g[0] == m[0] and g[2] == m[2] and g[1] != m[1] for g in got) for m in missing):
+                cause = "same-type-other-recipient"
+            if cause == "other" and P.has_adjacent_nullables(sim.p):
+                cause = "adjacent-nullable-items"
+            run.violation("C19", "forecast-differs", "%s:%s" % (kind, cause), "walk history=%s\nforecast offers %s\nthe grammar allows %s\nextra=%s missing=%s\n%s" % (hist, sorted(got), sorted(want), extra, missing, sim.p.to_fan(with_parties=False)))
+        if complete_got != complete_want:
+            run.violation("C19", "completeness-flag", "complete-flag-%s%s" % ("set-on-incomplete" if complete_got else "unset-on-complete", ":adjacent-nullable-items" if P.has_adjacent_nullables(sim.p) else ""), "walk history=%s complete_trees=%d but the history %s a full interaction\n%s" % (hist, len(fr.complete_trees), "is" if complete_want else "is not", sim.p.to_fan(with_parties=False)))
+        run.state((hash(st) & 0xFFFFFF, "walk", len(hist)))
+        # continue along an option both sides agree on (so that the walk stays inside the language)
+        both = sorted(got & want)
+        if not both or step == max_len:
+            break
+        if complete_want and ch.coin(0.15, "work", "walk-stop"):
+            break
+        key = ch.pick(both, "work", "walk-next")
+        packet = fr.parties_to_packets[key[0]].nt_to_packet[NonTerminal("<%s>" % key[2])]
+        paths = sorted(packet.paths, key=lambda mp: repr(mp))
+        option = ch.pick(paths, "work", "walk-mount")
+        msg = f.grammar.fuzz("<%s>" % key[2], 30)
+        msg.sender = packet.node.sender
+        msg.recipient = packet.node.recipient
+        tree = option.tree
+        tree.append(option.path[1:-1], msg)
+        hist.append((msg.sender, msg.recipient, key[2]))
+        got_hist = sim.tree_history(tree)
+        if got_hist != hist:
+            run.violation("C19", "mounting", "mounted-history-differs", "after mounting %s the tree reads %s, expected %s" % (key, got_hist, hist))
+            break
+    run.op("forecast walk of %d message(s): %s" % (len(hist), hist))
+    run.nontrivial = len(hist) >= 3
+    run.info = {"walk_len": len(hist)}
+
+
 def run(run: Run) -> None:
     from fandango.errors import FandangoError
     from fandango.language.grammar import FuzzingMode
@@ -622,6 +691,13 @@ def run(run: Run) -> None:
     sim = ProtoSimulation(run, proto, text, cfg)
     bridge.SIM = sim
     gen = None
+    if cfg.get("walk_rate") and ch.coin(cfg["walk_rate"], "cfg", "forecast-walk"):
+        try:
+            f = fresh_spec(text)
+            forecast_walk(run, sim, f)
+        finally:
+            bridge.SIM = None
+        return
     try:
         f = fresh_spec(text)
         sim.install(f)
